@@ -239,7 +239,12 @@ Proof. vm_compute. reflexivity. Qed.
    choice_float probs u: cdf = cumsum of probs with one rounding per addition; every entry divided by the last
    one and rounded; the index is the first entry that exceeds u. probs is what the generator passes as p=
    (prio_probs of the three configured probabilities). Theorems hold for arbitrary rational probs, in
-   particular for doubles. *)
+   particular for doubles. Two remarks of audit C (P4): (1) (b), (c) and C15_gen_u_zero_prob_never carry no
+   non-negativity hypothesis, so they also speak about inputs numpy's choice refuses (ValueError for a negative
+   or NaN p): true of the model function there, about the code only where the code draws at all; the RUNNER of
+   kind 25 - what the check compares with the implementation - refuses such inputs
+   (C15_gen_run_u_refuses_negative below). (2) [rnd64] has no subnormals (Num/Rnd64.v), so for probabilities
+   below 2^-1022 the closeness theorems are about an idealised binary64. *)
 
 (* (a) the index is a valid class for every u < 1 (the last float cdf entry is exactly 1) *)
 Theorem C15_choice_float_in_range : forall probs u,
@@ -366,6 +371,32 @@ Theorem C15_gen_u_zero_prob_never : forall P user n ds out s',
   exists k, nth_error priority_values k = Some (gp_prio p) /\ ~ (nth k user 0 == 0)%Q.
 Proof. exact ChoiceFloatFacts.gen_u_zero_prob_never. Qed.
 Print Assumptions C15_gen_u_zero_prob_never.
+
+(* what numpy refuses, the runner refuses. A case of kind 25 on the wire: num_pipelines, num_operators (numerator,
+   denominator), cpu_io_ratio (2), waiting_ticks_mean, nticks, interactive_prob (2), query_prob (2), batch_prob (2),
+   then the stream. A rational n/d on the wire is negative iff n < 0. [run_gen_u] answers [-1] as soon as one of the
+   three configured probabilities is negative or their float sum (a0 + a1) + a2 is not positive - whatever the
+   other fields and the stream are *)
+From Eudoxia Require Import Model.Codec Model.RunGen Proofs.AuditRepairFacts.
+Theorem C15_gen_run_u_refuses_negative :
+  forall np an ad rn rd wmean nticks i_n i_d q_n q_d b_n b_d stream,
+  ((i_n < 0)%Z \/ (q_n < 0)%Z \/ (b_n < 0)%Z \/
+   ~ (0 < fsum [Qmake i_n (Z.to_pos i_d); Qmake q_n (Z.to_pos q_d); Qmake b_n (Z.to_pos b_d)])%Q) ->
+  run_gen_u (np :: an :: ad :: rn :: rd :: wmean :: nticks :: i_n :: i_d :: q_n :: q_d :: b_n :: b_d :: stream)
+  = bad_input.
+Proof. exact AuditRepairFacts.GenRefuse.run_gen_u_refuses_negative. Qed.
+Print Assumptions C15_gen_run_u_refuses_negative.
+
+(* the input of AuditExamplesC.C15.negative_probability_is_not_refused (2 pipelines, 3 operators, ratio 1/2, mean 2,
+   one tick, probabilities -1/2, 1, 1/2, the stream u = 1/5, u = 7/10, N(3) = 6/5, N(2) = 2/5): [gen_run_u] draws
+   classes from it, the runner refuses it; and three zero probabilities (float sum 0), any stream *)
+Example C15_ex_run_u_refuses :
+  run_gen_u [2; 3; 1; 1; 2; 2; 1;  -1; 2;  1; 1;  1; 2;  4;  2; 1; 5;  2; 7; 10;  1; 3; 1; 6; 5;  1; 2; 1; 2; 5]%Z
+  = bad_input /\
+  forall stream, run_gen_u (2 :: 3 :: 1 :: 1 :: 2 :: 2 :: 1 :: 0 :: 1 :: 0 :: 1 :: 0 :: 1 :: stream)%Z = bad_input.
+Proof.
+  split; [exact AuditRepairFacts.GenRefuse.refuses_minus_half | exact AuditRepairFacts.GenRefuse.refuses_zero_sum].
+Qed.
 
 (* the windows are needed: the normalised doubles of (0.7, 0.2, 0.1) and a u on the 2^-53 grid for which numpy
    (float cdf) answers class 1 and the exact inverse CDF class 0 *)
